@@ -1106,7 +1106,8 @@ impl<'a> BytesStart<'a> {
     #[verifier::external_body]
     pub fn attributes(&self) -> (r: Attributes<'_>) ensures r.rem() == self.ev().attrs { unimplemented!() }
 }
-/// `decoder().decode(bytes)` followed by `str::parse::<usize>()`: the decimal number the bytes spell, None if they do not
+/// the decimal number the attribute VALUE spells (XML 1.0 3.3.3: the raw bytes with character / entity references resolved --
+/// `decode_and_unescape_value` -- then `str::parse::<usize>()`), None if it does not.  DEFINED in unit odsxml (`parse_usize` over `unesc`).
 pub uninterp spec fn parse_usize(raw: Seq<u8>) -> Option<usize>;
 impl<'a> XmlReader<BufReader<ZipFile<'a>>> {
     // TRUSTED: A-xml -- reads events until the End tag with this qualified name at nesting depth 0
@@ -1118,9 +1119,10 @@ impl<'a> XmlReader<BufReader<ZipFile<'a>>> {
             r is Ok ==> final(self).pos() == rte_next(old(self).events(), old(self).pos(), end.0@),
     { unimplemented!() }
 }
-// TRUSTED: the body is the real expression `reader.decoder().decode(&a.value)?.parse().map_err(OdsError::ParseInt)?` (without the
-// trailing `?`), moved into a function: Decoder::decode, Cow deref, str::parse::<usize> and the From conversions of `?` are library code
-// outside vstd.  usize::from_str doc: accepts an optional `+` sign followed by decimal digits; Err on anything else or on overflow.
+// TRUSTED: the body is the real expression `a.decode_and_unescape_value(reader.decoder()).map_err(OdsError::Xml)?.parse()
+// .map_err(OdsError::ParseInt)?` (without the trailing `?`), moved into a function: decode_and_unescape_value, Cow deref,
+// str::parse::<usize> and the From conversions of `?` are library code outside vstd (this very expression is under proof in unit odsxml,
+// read_row@frame).  usize::from_str doc: accepts an optional `+` sign followed by decimal digits; Err on anything else or on overflow.
 #[verifier::external_body]
 fn verif_parse_repeats(reader: &OdsReader<'_>, a: &Attribute<'_>) -> (r: Result<usize, OdsError>)
     ensures
@@ -1276,7 +1278,7 @@ impl From<quick_xml::events::attributes::AttrError> for OdsError { #[verifier::e
 //@@ r6 1
 //@@ replace /a\.map_err\(OdsError::XmlAttr\)/ Verus does not support a datatype constructor as a function value; eta-expanded
 a.map_err(|e| -> (oe: OdsError) ensures oe is XmlAttr { OdsError::XmlAttr(e) })
-//@@ replace /reader\s*\.decoder\(\)\s*\.decode\(&a\.value\)\?\s*\.parse\(\)\s*\.map_err\(OdsError::ParseInt\)/ decoder, Cow deref, str::parse and the From conversions are library code outside vstd; the expression is moved verbatim into the trusted wrapper verif_parse_repeats
+//@@ replace /a\s*\.decode_and_unescape_value\(reader\.decoder\(\)\)\s*\.map_err\(OdsError::Xml\)\?\s*\.parse\(\)\s*\.map_err\(OdsError::ParseInt\)/ decode_and_unescape_value, Cow deref, str::parse and the From conversions are library code outside vstd; the expression is moved verbatim into the trusted wrapper verif_parse_repeats (the SAME expression is verified against the quick-xml model in unit odsxml: read_row@frame, C04.row_repeat_count_is_the_unescaped_attribute_value)
 verif_parse_repeats(reader, &a)
 //@@ sig
     ensures
